@@ -2,6 +2,8 @@ package metadata
 
 import (
 	"fmt"
+	"go/ast"
+	"reflect"
 
 	"github.com/gopher-fleece/gleece/v2/core/annotations"
 	"github.com/gopher-fleece/gleece/v2/definitions"
@@ -14,13 +16,18 @@ type StructMeta struct {
 }
 
 func (s StructMeta) Reduce(ctx ReductionContext) (definitions.StructMetadata, error) {
-	reducedFields := make([]definitions.FieldMetadata, len(s.Fields))
-	for idx, field := range s.Fields {
+	reducedFields := make([]definitions.FieldMetadata, 0, len(s.Fields))
+	for _, field := range s.Fields {
 		reduced, err := field.Reduce(ctx)
 		if err != nil {
 			return definitions.StructMetadata{}, fmt.Errorf("failed to reduce field '%s' - %v", field.Name, err)
 		}
-		reducedFields[idx] = reduced
+
+		// Fields encoding/json never emits are not part of the model: unexported ones and those tagged `json:"-"`
+		if !reduced.IsEmbedded && (!ast.IsExported(reduced.Name) || reflect.StructTag(reduced.Tag).Get("json") == "-") {
+			continue
+		}
+		reducedFields = append(reducedFields, reduced)
 	}
 
 	return definitions.StructMetadata{
